@@ -6,6 +6,7 @@ package posex
 import (
 	"encoding/binary"
 	"hash"
+	"io"
 	"net/http"
 	"sync"
 	"sync/atomic"
@@ -70,4 +71,11 @@ func twoVarintsInOneScratch(a, b uint64) []byte {
 // compressed body to the caller (positive example for C12.D5 "body as sent").
 func asksForGzipItself(req *http.Request) {
 	req.Header.Set("Accept-Encoding", "gzip")
+}
+
+// readsPaddedVarint reads a length prefix with the standard library's reader,
+// which accepts padded (non-minimal) encodings (positive example for C11
+// "varints read strictly").
+func readsPaddedVarint(r io.ByteReader) (uint64, error) {
+	return binary.ReadUvarint(r)
 }
